@@ -5,7 +5,7 @@ static vh::Env E;
 static std::vector<std::vector<long long>> G(const std::vector<long long>& v) { return vh::gather_ll(v); }
 static std::vector<long long> flat(const std::vector<std::vector<long long>>& per) { std::vector<long long> a; for (auto& v : per) a.insert(a.end(), v.begin(), v.end()); return a; }
 
-static vh::Trip gen_sys(vh::Rng& g, int n)
+static vh::Trip gen_sys(vh::Rng& g, int n, bool ties = false)
 {
     vh::Trip t; t.n_rows = t.n_cols = n; int style = g.below(4);   // 0 M-matrix like, 1 mixed-sign diagonals, 2 off-diagonals of the diagonal's sign, 3 anything
     for (int i = 0; i < n; i++) {
@@ -15,7 +15,8 @@ static vh::Trip gen_sys(vh::Rng& g, int n)
         int k = g.range(0, std::min(n - 1, 5));
         for (int q = 0; q < k; q++) { int j = g.below(n); if (j == i) continue; bool dup = false;
             for (size_t p = 0; p < t.r.size(); p++) if (t.r[p] == i && t.c[p] == j) dup = true; if (dup) continue;
-            double v = 0.125 * g.range(1, 40); if (style == 0) v = -v; else if (style == 2) v = (d > 0 ? v : -v); else if (g.coin()) v = -v;
+            double v = 0.125 * g.range(1, 40); if (ties) { double lv[] = { 0.5, 1, 2, 4 }; v = lv[(int)(v * 8) % 4]; }    // few distinct magnitudes: entries exactly equal to theta x the row's extreme
+            if (style == 0) v = -v; else if (style == 2) v = (d > 0 ? v : -v); else if (g.coin()) v = -v;
             t.r.push_back(i); t.c.push_back(j); t.v.push_back(v); }
     }
     return t;
@@ -34,17 +35,22 @@ int main(int argc, char** argv)
     bool seq = argc > 2 && !strcmp(argv[2], "seq");
     int np = E.np, rank = E.rank;
     int ncases = seq ? (E.thorough ? 500 : 120) : (E.thorough ? 150 : 40);
-    for (int it = 0; it < ncases; it++)
+    // after the regular cases (their numbers stay): rows with exact ties at the threshold, and matrices the caller has sorted
+    // already (sorted = true, diagonal not first)
+    int nextra = ncases / 2;
+    for (int it0 = 0; it0 < ncases + nextra; it0++)
     {
+        bool extra = it0 >= ncases; int it = extra ? (it0 - ncases) * 2 : it0;
+        bool presort = extra && (it0 % 2 == 1);
         int cap = 1 + std::min(20, it / 3);
         int n = std::max(seq ? 1 : np, g.range(1, cap + (seq ? 0 : np)));
-        vh::Trip t = gen_sys(g, n);
+        vh::Trip t = gen_sys(g, n, extra);
         double thetas[] = { 0.0, 0.25, 0.5, 0.75, 1.0, 0.125 }; double theta = thetas[g.below(6)];
         int type = g.below(2);      // 0 classical, 1 symmetric
         int nv = type == 0 ? g.range(1, 3) : 1;
         char ctx[96]; snprintf(ctx, 96, "%s/%s/nv%d/n%d", seq ? "seq" : "par", type ? "symmetric" : "classical", nv, n); E.about(ctx);
         if (seq) {
-            CSRMatrix* A = vh::make_csr(t);
+            CSRMatrix* A = vh::make_csr(t); if (presort) A->sort();
             std::vector<int> vars(n); for (int i = 0; i < n; i++) vars[i] = i % nv;
             CSRMatrix* S = A->strength(type ? Symmetric : Classical, theta, nv, nv > 1 ? vars.data() : NULL);
             if (E.want()) { vh::Case c("C14", "seq"); c.i(type).i(nv).d(theta).i(n); for (auto q : csr_ll(A)) c.i(q); for (auto q : csr_ll(S)) c.i(q); c.write(E.out); }
@@ -54,7 +60,7 @@ int main(int argc, char** argv)
             std::vector<int> R = vh::compose(g, n, np, style);
             vh::Layout L; L.kind = 1; L.rows = R; L.cols = R; L.first_row.assign(np, 0); for (int p = 1; p < np; p++) L.first_row[p] = L.first_row[p - 1] + R[p - 1]; L.first_col = L.first_row;
             for (int tap = 0; tap <= (np > 1 ? 1 : 0); tap++) {
-                ParCOOMatrix* Ac = vh::assemble_coo(t, L, rank); ParCSRMatrix* A = Ac->to_ParCSR();
+                ParCOOMatrix* Ac = vh::assemble_coo(t, L, rank); ParCSRMatrix* A = Ac->to_ParCSR(); if (presort) { A->on_proc->sort(); A->off_proc->sort(); }
                 if (tap) { A->tap_comm = new TAPComm(A->partition, A->off_proc_column_map, A->on_proc_column_map); }
                 std::vector<int> vars(A->local_num_rows); for (int i = 0; i < A->local_num_rows; i++) vars[i] = (A->partition->first_local_row + i) % nv;
                 ParCSRMatrix* S = A->strength(type ? Symmetric : Classical, theta, tap, nv, nv > 1 ? vars.data() : NULL);
